@@ -26,10 +26,11 @@ Proof.
 Qed.
 
 (* an accepted instantiation: every obligation of every reached node holds *)
-Lemma accepted_sound : forall p s drop b, wf p -> run p s drop = Ok b ->
+Lemma accepted_sound : forall p s drop b, wf p -> guard_C03_function_zero p (lookup s) drop = true ->
+  run p s drop = Ok b ->
   all_hold p (lookup s) drop = true /\ b = plays p (lookup s) drop.
 Proof.
-  intros p s drop b Hwf Hr. pose proof (run_ref p Hwf s drop) as H. rewrite Hr in H.
+  intros p s drop b Hwf Hg Hr. pose proof (run_ref p Hwf s drop Hg) as H. rewrite Hr in H.
   apply refines_ok_inv in H. unfold verdict, verd in H.
   destruct (first_fail (map ob_stat (obs p (lookup s) drop))) eqn:E; [discriminate|].
   inversion H; subst. split; auto. apply all_hold_ff; auto.
@@ -51,11 +52,12 @@ Proof.
 Qed.
 
 (* a rejection with a constraint violation is justified by a visible constraint that is false *)
-Lemma violated_sound : forall p s drop, wf p -> run p s drop = Err Violated ->
+Lemma violated_sound : forall p s drop, wf p -> guard_C03_function_zero p (lookup s) drop = true ->
+  run p s drop = Err Violated ->
   exists c r, In (c, r) (visible p (lookup s) drop) /\ ceval r c = Some false.
 Proof.
-  intros p s drop Hwf Hr. pose proof (run_ref p Hwf s drop) as H. rewrite Hr in H.
-  destruct H as [H|[H|[_ H]]]; try discriminate.
+  intros p s drop Hwf Hg Hr. pose proof (run_ref p Hwf s drop Hg) as H. rewrite Hr in H.
+  destruct H as [H|[H|[_ [H|[]]]]]; try discriminate.
   unfold verdict, verd in H.
   destruct (first_fail (map ob_stat (obs p (lookup s) drop))) as [e|] eqn:E; [|discriminate].
   inversion H; subst. apply first_fail_some in E. apply in_map_iff in E as [o [Ho Hin]].
@@ -68,8 +70,9 @@ Proof.
 Qed.
 
 (* a needed value that is missing never yields a program *)
-Lemma missing_never_ok : forall p s drop b, wf p -> none_missing p (lookup s) drop = false -> run p s drop <> Ok b.
+Lemma missing_never_ok : forall p s drop b, wf p -> guard_C03_function_zero p (lookup s) drop = true ->
+  none_missing p (lookup s) drop = false -> run p s drop <> Ok b.
 Proof.
-  intros p s drop b Hwf Hm Hr. destruct (accepted_sound p s drop b Hwf Hr) as [H _].
+  intros p s drop b Hwf Hg Hm Hr. destruct (accepted_sound p s drop b Hwf Hg Hr) as [H _].
   apply all_hold_none_missing in H. congruence.
 Qed.
